@@ -48,6 +48,7 @@ struct Session<'b, B: MutRB, const WK: bool> {
     heap: bool,
     freed: bool,
     len: usize,
+    final_probe: Option<Vec<u64>>,
 }
 
 impl<'b, T: ItemX, B: MutRB<Item = T>, const WK: bool> Session<'b, B, WK> {
@@ -70,6 +71,13 @@ impl<'b, T: ItemX, B: MutRB<Item = T>, const WK: bool> Session<'b, B, WK> {
         if toff == 0 { format!("slices {} {} {}", self.off(h.as_ptr()), fmt_list(&hv), fmt_list(&tv)) }
         else { format!("slices {} {} @{}{}", self.off(h.as_ptr()), fmt_list(&hv), toff, fmt_list(&tv)) }
     }
+    /// snapshot of `n` slots starting at slot `i` (wrapping): used to see whether data is in place when an index is published
+    fn slot_probe(&self, i: usize, n: usize) -> Box<dyn Fn() -> Vec<u64>> {
+        let base = self.base() as usize; let len = self.len;
+        Box::new(move || (0..n).map(|j| { let mut k = i + j; if k >= len { k -= len; } unsafe { T::peek((base as *const T).add(k)) } }).collect())
+    }
+    fn set_probe(&mut self, f: Box<dyn Fn() -> Vec<u64>>) { PROBE.with(|p| *p.borrow_mut() = Some(f)); }
+    fn end_probe(&mut self) { self.final_probe = PROBE.with(|p| p.borrow_mut().take()).map(|f| f()); }
     fn usable(&self, k: St) -> bool {
         !self.freed && match k { St::P => self.p.here(), St::W => WK && self.w.here(), St::C => self.c.here() }
     }
@@ -137,20 +145,26 @@ impl<'b, T: ItemX, B: MutRB<Item = T>, const WK: bool> Session<'b, B, WK> {
                 "unit".into() }
             "push" | "pushinit" => { if !self.attached(St::P) { return bad; } let v: u64 = words[1].parse().unwrap();
                 let x = T::make(v);
+                let pr = self.slot_probe(self.p.ix().unwrap(), 1); self.set_probe(pr);
                 let p = if let Slot::Att(p) = &mut self.p { p } else { unreachable!() };
                 let r = if words[0] == "push" { p.push(x) } else { p.push_init(x) };
+                self.end_probe();
                 match r { Ok(()) => { if T::OWNED { log(format!("take{v}")); } "ok".into() }
                           Err(x) => { let id = unsafe { T::peek(&x) }; x.dispose(); format!("err {id}") } } }
             "pushslice" | "pushsliceinit" | "pushclone" | "pushcloneinit" => {
                 if !self.attached(St::P) || (T::OWNED && words[0].starts_with("pushslice")) { return bad; }
                 let src: Vec<T> = ints(words[1]).into_iter().map(T::make).collect();
+                let pr = self.slot_probe(self.p.ix().unwrap(), src.len().min(self.len)); self.set_probe(pr);
                 let p = if let Slot::Att(p) = &mut self.p { p } else { unreachable!() };
                 let r = T::push_slice_op(p, &src, words[0]);
+                self.end_probe();
                 for x in src { x.dispose(); }
                 match r { Some(()) => "ok".into(), None => "none".into() } }
             "pop" | "popmove" => { if !self.attached(St::C) { return bad; }
+                if words[0] == "popmove" { let pr = self.slot_probe(self.c.ix().unwrap(), 1); self.set_probe(pr); }
                 let c = if let Slot::Att(c) = &mut self.c { c } else { unreachable!() };
                 let r = if words[0] == "pop" { c.pop() } else { unsafe { c.pop_move() } };
+                self.end_probe();
                 match r { None => "none".into(), Some(x) => { let id = unsafe { T::peek(&x) };
                     if T::OWNED {
                         if id == 0 { log("zeroread".into()); std::mem::forget(x); }
@@ -161,14 +175,18 @@ impl<'b, T: ItemX, B: MutRB<Item = T>, const WK: bool> Session<'b, B, WK> {
             "copyitem" | "cloneitem" => { if !self.attached(St::C) || (T::OWNED && words[0] == "copyitem") { return bad; }
                 let c = if let Slot::Att(c) = &mut self.c { c } else { unreachable!() };
                 let mut dst = T::scratch();
+                { let dp = &dst as *const T as usize; PROBE.with(|p| *p.borrow_mut() = Some(Box::new(move || vec![unsafe { T::peek(dp as *const T) }]))); }
                 let r = T::extract_item_op(c, &mut dst, words[0]);
+                self.final_probe = PROBE.with(|p| p.borrow_mut().take()).map(|f| f());
                 let id = unsafe { T::peek(&dst) }; dst.dispose();
                 match r { Some(()) => format!("dst [{id}]"), None => "none".into() } }
             "copyslice" | "cloneslice" => { if !self.attached(St::C) || (T::OWNED && words[0] == "copyslice") { return bad; }
                 let n = num(1);
                 let c = if let Slot::Att(c) = &mut self.c { c } else { unreachable!() };
                 let mut dst: Vec<T> = (0..n).map(|_| T::scratch()).collect();
+                { let dp = dst.as_ptr() as usize; PROBE.with(|p| *p.borrow_mut() = Some(Box::new(move || (0..n).map(|j| unsafe { T::peek((dp as *const T).add(j)) }).collect()))); }
                 let r = T::extract_slice_op(c, &mut dst, words[0]);
+                self.final_probe = PROBE.with(|p| p.borrow_mut().take()).map(|f| f());
                 let ids: Vec<u64> = dst.iter().map(|x| unsafe { T::peek(x) }).collect();
                 for x in dst { x.dispose(); }
                 match r { Some(()) => format!("dst {}", fmt_list(&ids)), None => "none".into() } }
@@ -238,22 +256,44 @@ impl<T: Item + ItemOps> ItemX for T {}
 
 struct Lines<'a> { lines: &'a [String], pos: usize }
 
-fn emit(out: &mut impl Write, res: &str, obs: &str) {
+static LOGGER: std::sync::OnceLock<std::sync::Arc<Logger>> = std::sync::OnceLock::new();
+fn logger() -> &'static Logger { LOGGER.get().unwrap() }
+fn log_on() { logger().enabled.store(true, std::sync::atomic::Ordering::Relaxed); }
+fn log_off() { logger().enabled.store(false, std::sync::atomic::Ordering::Relaxed); }
+
+fn emit(out: &mut impl Write, res: &str, obs: &str) { emit_at(out, res, obs, "") }
+fn emit_at(out: &mut impl Write, res: &str, obs: &str, at: &str) {
     let ev = take_events();
-    writeln!(out, "{} | {} | ev={}", res, obs, ev.join(",")).unwrap();
+    writeln!(out, "{} | {} | ev={} | at={}", res, obs, ev.join(","), at).unwrap();
     out.flush().unwrap();
 }
 
 fn run_session<'b, T: ItemX, B: MutRB<Item = T>, const WK: bool>(mut s: Session<'b, B, WK>, ls: &mut Lines, out: &mut impl Write, first: Option<&str>) -> Next {
-    if let Some(f) = first { emit(out, f, &s.obs()); }
+    // which address is which atomic: one load of each through the accessor methods
+    log_off();
+    let pending: Vec<Logged> = std::mem::take(&mut *logger().log.lock().unwrap());   // events of a re-split, logged by the caller
+    let mut names = std::collections::HashMap::new();
+    log_on();
+    if let Slot::Att(p) = &s.p { p.prod_index(); p.work_index(); p.cons_index(); p.is_prod_alive(); }
+    log_off();
+    { let mut l = logger().log.lock().unwrap(); for (e, n) in l.iter().zip(['P', 'W', 'C', 'A']) { names.insert(e.addr, n); } l.clear(); }
+    if let Some(f) = first { let at = render_events(&pending, &names, None); emit_at(out, f, &s.obs(), &at); }
     while ls.pos < ls.lines.len() {
         let l = ls.lines[ls.pos].trim().to_string();
         if l.starts_with("cfg") || l.starts_with('#') { break; }
         ls.pos += 1;
         if l.is_empty() { continue; }
         let words: Vec<&str> = l.split_whitespace().collect();
-        match s.step(&words) {
-            Ok(r) => emit(out, &r, &s.obs()),
+        logger().log.lock().unwrap().clear();
+        s.final_probe = None;
+        log_on();
+        let r = s.step(&words);
+        log_off();
+        match r {
+            Ok(r) => {
+                let evs = std::mem::take(&mut *logger().log.lock().unwrap());
+                let at = render_events(&evs, &names, s.final_probe.take());
+                emit_at(out, &r, &s.obs(), &at) }
             Err(n) => return n,
         }
     }
@@ -288,10 +328,10 @@ macro_rules! heap_run {
                 let len = cfg.init.len();
                 if cfg.stages == 3 {
                     let (p, w, c) = buf.split_mut();
-                    run_session::<$T, _, true>(Session { p: Slot::Att(p), w: Slot::Att(w), c: Slot::Att(c), heap: true, freed: false, len }, $ls, $out, Some("init ok"));
+                    run_session::<$T, _, true>(Session { p: Slot::Att(p), w: Slot::Att(w), c: Slot::Att(c), heap: true, freed: false, len, final_probe: None }, $ls, $out, Some("init ok"));
                 } else {
                     let (p, c) = buf.split();
-                    run_session::<$T, _, false>(Session { p: Slot::Att(p), w: Slot::Gone, c: Slot::Att(c), heap: true, freed: false, len }, $ls, $out, Some("init ok"));
+                    run_session::<$T, _, false>(Session { p: Slot::Att(p), w: Slot::Gone, c: Slot::Att(c), heap: true, freed: false, len, final_probe: None }, $ls, $out, Some("init ok"));
                 }
             }
         }
@@ -333,12 +373,13 @@ macro_rules! stack_run_n {
                 let mut stages3 = cfg.stages == 3;
                 let mut first = Some("init ok");
                 loop {
+                    if first == Some("unit") { logger().log.lock().unwrap().clear(); log_on(); }
                     let nx = if stages3 {
                         let (p, w, c) = buf.split_mut();
-                        run_session::<$T, _, true>(Session { p: Slot::Att(p), w: Slot::Att(w), c: Slot::Att(c), heap: false, freed: false, len: $N }, &mut *lsr, $out, first)
+                        run_session::<$T, _, true>(Session { p: Slot::Att(p), w: Slot::Att(w), c: Slot::Att(c), heap: false, freed: false, len: $N, final_probe: None }, &mut *lsr, $out, first)
                     } else {
                         let (p, c) = buf.split();
-                        run_session::<$T, _, false>(Session { p: Slot::Att(p), w: Slot::Gone, c: Slot::Att(c), heap: false, freed: false, len: $N }, &mut *lsr, $out, first)
+                        run_session::<$T, _, false>(Session { p: Slot::Att(p), w: Slot::Gone, c: Slot::Att(c), heap: false, freed: false, len: $N, final_probe: None }, &mut *lsr, $out, first)
                     };
                     match nx {
                         Next::End => { drop(buf); break }
@@ -387,6 +428,7 @@ fn run_file(path: &str, out: &mut impl Write) {
     let lines: Vec<String> = text.lines().map(|s| s.to_string()).collect();
     let mut ls = Lines { lines: &lines, pos: 0 };
     std::panic::set_hook(Box::new(|_| {}));
+    let _ = LOGGER.set(install_logger());
     while ls.pos < ls.lines.len() {
         let l = ls.lines[ls.pos].trim().to_string();
         ls.pos += 1;
